@@ -154,7 +154,7 @@ PROPS = {
             'assumptions': [
                 'decided: an evaluation that does not fail leaves no stack trace on record (a stale trace of an earlier failure is cleared); the error arm of run_count leaves the machine in the idle top-level control state (sp = 0, every stack slot wiped, bp = 0, ep = none) with heap and globals exactly as the failing instruction left them; Stack::clear wipes every slot (proved in unit stack)',
                 'not decided: that later evaluations then behave as in a VM that only performed the completed effects (needs the semantics of compile + run_one); read/compile errors happen before run_count and do not touch the machine (by reading prepare_eval)',
-                'run_one / StackTrace::new / Stack::get_sp_mut: assumed contracts',
+                'run_one / StackTrace::new: assumed contracts; the contracts group run assumes for Stack::clear / get_sp / get_sp_mut (Stack is opaque there) are one text (specs/stack.py: CLEAR_MODEL, GET_SP_MODEL, GET_SP_MUT_MODEL) that unit stack, which runs under this property, proves on the real functions over the concrete views',
             ]},
     'C20': {'level': 'other', 'groups': [],
             'explanation': 'BOUNDED (never counted as proved): Kani/CBMC harnesses inside syntax.rs check find_matching_bracket and find_token_at_cursor against an executable nesting oracle written from the property text, for every token stream of 1..5 tokens (6 in the thorough tier) over the types ( ) #( symbol string with symbolic spans and every cursor / token index. highlight() and highlight_check() themselves run lex::scan and str slicing, which neither verifier ingests: escape insertion by byte span is not decided.',
